@@ -9,7 +9,7 @@ import UF.Gen.Facts
   `strings.ToLower` is modelled on ASCII; a URL with a byte ≥ 0x80 among its first 4096 bytes is
   outside the model's domain (Go cuts BYTES and then lower-cases, replacing invalid UTF-8).
 -/
-namespace UF
+namespace UF.H
 open Bytes
 
 /-- `filterutil.ExtractHostname`. -/
@@ -99,4 +99,4 @@ def fillRequestForHostname (ext : Ext) (r : Request) (hostname : Bytes) : Except
 def newRequestForHostname (ext : Ext) (hostname : Bytes) : Except HErr Request :=
   fillRequestForHostname ext {} hostname
 
-end UF
+end UF.H
